@@ -42,6 +42,8 @@ def run(tier):
     conds = C.only(conds)
     raw = run_conditions(conds, timeout)
     obs, _ = to_obligations('C06', conds, raw, schema_text=fam['text'])
+    from .chrun import concrete_reach
+    concrete_reach(conds, obs)          # count-guard obligations carry a concrete sample (reachability witness)
     return C.finish('C06', tier, obs, t0, functions=X.FUNCS_DEC + X.FUNCS_ENC,
                     bounds=dict(family='F without float members', input_length='0..min(static size+3,%d) quick / +6,40 thorough; all bytes symbolic; both byte orders' % maxL,
                                 outside='inputs longer than the bound; float members (CrossHair realises float bytes); wall-clock/RSS of the native call'),
